@@ -17,6 +17,8 @@ def content(rng, tag):
     if r < 0.4: return b"only=" + tag + b"\n[broken\n"
     if r < 0.45: return rng.choice([b"only=" + tag + b"\nx=1\n[broken", b"[broken", b"a=1\n[s] junk"])       # offending line last, no newline
     if r < 0.5: return b"key value without delimiter\n"
+    if r < 0.57:   # text whose first or last byte is above 127 (UTF-8, Latin-1)
+        return b"currency=\xe2\x82\xac\nname = Jos\xc3\xa9\n[\xc3\x9cber]\nmotto=\xc2\xa1hola! # t\nlist=caf\xe9\n  \xe9t\xe9\n" + b"tag=" + tag + b"\n"
     if r < 0.65:   # both comment characters in use: a standalone note, a note below an entry, a trailing note
         return b"; note of " + tag + b"\na=" + tag + b" ; trailing\n# hash note\nb=2\n; below an entry\n[S]\nc=3 # t\n"
     return trees.content(rng, tag)
